@@ -500,7 +500,7 @@ type c20 struct{}
 func init() { register(c20{}) }
 
 var c20Methods = []string{"syn", "sack", "prefer_sack", ""}
-var c20Caps = []string{"ok-ts", "ok", "noPermitted", "plainAck", "closed", "noSynAck", "unreach"}
+var c20Caps = []string{"ok-ts", "ok", "noPermitted", "plainAck", "closed", "noSynAck", "unreach", "ok-synack-twice"}
 
 // unreachTarget is an address for which the worker's private network namespace holds the policy
 // rule "to 198.18.0.9 ipproto tcp unreachable": a TCP connect fails at once with ENETUNREACH (a
@@ -541,6 +541,9 @@ func (c20) Gen(rng *rand.Rand, tier string, i int) *sim.Scenario {
 		lis.Closed = true
 	case "noSynAck":
 		lis.NoSynAck = true
+	case "ok-synack-twice":
+		// the target retransmits its SYN-ACK (it missed the handshake ACK): seen again during probing
+		lis.SynAckDupUs = int64(pick(rng, 300, 5000, 30000, 120000))
 	}
 	if capb == "unreach" {
 		c.Target, c.Listener, c.Port = unreachTarget, 0, 33434
@@ -700,6 +703,10 @@ func (c20) Check(out *sim.Outcome, ri *RunInfo) []Violation {
 				plainAckRead++
 			}
 		}
+	}
+	if capb == "ok-synack-twice" {
+		capb = "ok" // a retransmitted SYN-ACK changes nothing about the target's capability
+		ri.probe("synack-retransmitted")
 	}
 	if capb == "plainAck" {
 		if plainAckRead == 0 {
